@@ -24,7 +24,11 @@ def trace_case(rng):
     chunks, left = [], nb
     while left:
         k = rng.randint(1, left); chunks.append(k); left -= k
-    return dict(recip=rng.random() < 0.4, algorithm=rng.choice(["fourier", "fourier", "realspace"]),
+    nb2 = rng.choice([0, 0, 1, 2, 3])  # a second batch axis (grid scans): 0 = none
+    chunks2, left = [], nb2
+    while left:
+        k = rng.randint(1, left); chunks2.append(k); left -= k
+    return dict(nb2=nb2, chunks2=chunks2, recip=rng.random() < 0.4, algorithm=rng.choice(["fourier", "fourier", "realspace"]),
                 n=n, ncfg=ncfg, ens=ens, spec=spec, nb=nb, chunks=chunks, pot=rng.choice(["array", "frozen"]) if ens else "array",
                 seeds=rng.sample(range(1, 10 ** 6), ncfg))
 
@@ -58,11 +62,15 @@ def run_traced(c, lazy):
             single = abtem.Potential(one.randomize(one.atoms), gpts=4, slice_thickness=1.0)
             configs.append(tr.register_slices(list(single.generate_slices()), 10 * k + 1))
         kw = dict(extent=4.0)
-    arr = np.ones((c["nb"], 4, 4), dtype=np.complex64)
-    ids = [1000 + m for m in range(c["nb"])]
+    nb2 = c.get("nb2", 0)
+    bshape = (c["nb"], nb2) if nb2 else (c["nb"],)
+    nmem = int(np.prod(bshape))
+    arr = np.ones(bshape + (4, 4), dtype=np.complex64)
+    ids = [1000 + m for m in range(nmem)]
+    flat = arr.reshape((nmem, 4, 4))
     for m, i in enumerate(ids):
-        arr[m] = tr.code_of((i,))
-    w = abtem.waves.Waves(arr, energy=100e3, ensemble_axes_metadata=[OrdinalAxis(values=tuple(range(c["nb"])))],
+        flat[m] = tr.code_of((i,))
+    w = abtem.waves.Waves(arr, energy=100e3, ensemble_axes_metadata=[OrdinalAxis(values=tuple(range(b))) for b in bshape],
                           reciprocal_space=bool(c.get("recip")), **kw)
     akw = {}
     if c.get("algorithm") == "realspace":
@@ -73,23 +81,27 @@ def run_traced(c, lazy):
         with tr.patched(), warnings.catch_warnings():
             warnings.simplefilter("ignore")
             if lazy:
-                w = w.ensure_lazy(chunks=(tuple(c["chunks"]), -1, -1))
+                w = w.ensure_lazy(chunks=((tuple(c["chunks"]),) + ((tuple(c["chunks2"]),) if nb2 else ()) + (-1, -1)))
                 r = w.multislice(pot, detectors=WavesDetector(), **akw)
                 chunks = [list(x) for x in r.array.chunks]
                 out = r.compute(progress_bar=False).array
             else:
                 out = w.multislice(pot, detectors=WavesDetector(), **akw).array
         ens_shape, hs = tr.decode(out)
-        nb = c["nb"]
-        lead = int(np.prod(ens_shape[:-1])) if len(ens_shape) > 1 else 1
-        rows = [hs[i * nb:(i + 1) * nb] for i in range(lead)]
-        return pot, configs, ids, "ok " + ";".join(_members_s(r) for r in rows), chunks
+        nlead = len(ens_shape) - len(bshape)
+        lead = int(np.prod(ens_shape[:nlead])) if nlead else 1
+        rows = [hs[i * nmem:(i + 1) * nmem] for i in range(lead)]
+        if nb2:
+            text = ";".join("/".join(_members_s(r[k * nb2:(k + 1) * nb2]) for k in range(c["nb"])) for r in rows)
+        else:
+            text = ";".join(_members_s(r) for r in rows)
+        return pot, configs, ids, "ok " + text, chunks
     except Exception as e:  # noqa
         return pot, configs, ids, "err " + err_kind(e), chunks
 
 
 # ----------------------------------------------------------------------------- numeric pipelines
-def gen_pipeline(ctx: Ctx, focus=False):
+def gen_pipeline(ctx: Ctx, focus=False, force_algorithm=False):
     """random pipeline; `focus`: the region where most bookkeeping meets — ensemble potential x several exit planes x a
     detector that drops base axes x a scan"""
     rng = ctx.rng
@@ -118,7 +130,11 @@ def gen_pipeline(ctx: Ctx, focus=False):
     if kind == "build":
         dets, post = ["waves"], rng.choice(["none", "ctf", "ctf+intensity"])
     entry = "builder" if kind == "build" else rng.choice(["builder", "builder", "real", "reciprocal"])
-    algorithm = rng.choice(["default", "default", "fourier-conjugate", "fourier-transpose", "fourier-order2", "realspace"])
+    slow = ["realspace"] if ctx.thorough else []  # long JIT compilation per process: thorough tier (quick: traced only)
+    algorithm = rng.choice(["default", "default", "fourier-conjugate", "fourier-transpose", "fourier-order2"] + slow)
+    if force_algorithm:  # a non-default algorithm keyword must reach every lazy block
+        algorithm = rng.choice(["fourier-conjugate", "fourier-transpose"] + slow)
+        kind = "multislice"
     return dict(algorithm=algorithm, entry=entry, kind=kind, post=post, nslices=n, atoms=atoms, pot=pot, spec=spec, builder=builder, scan=scan, dets=dets, gpts=rng.choice([8, 12]),
                 ncfg=rng.randint(1, 3), seed=rng.randint(1, 10 ** 6), max_batch=rng.choice(["auto", 1, 2, 3]),
                 scheduler=rng.choice(["synchronous", "synchronous", "threads"]),
@@ -225,7 +241,9 @@ class C01(Property):
     id = "C01"
     props_file = "AbtemVerif/Props/C01.lean"
     drive_file = "AbtemVerif/Drive/C01.lean"
-    extra_lean = ["AbtemVerif/Lib/Multislice.lean"]
+    # the supporting lemmas of Lib/Multislice.lean are used by (hence audited through) the property theorems; they are counted
+    # and audited on their own in the thorough tier only (a second Mathlib import costs up to a minute on a loaded machine)
+    extra_lean = ["AbtemVerif/Lib/Multislice.lean"] if "thorough" in sys.argv else []
     trusted = [
         "DASK: blockwise / map_blocks call the block function once per block with the blocks they were given and concatenate "
         "the results by block position; schedulers do not share mutable state between tasks (exercised with the synchronous and "
@@ -255,27 +273,31 @@ class C01(Property):
         def add(name, line, impl, case):
             lines.append(line); impls.append(impl); names.append(name); cases.append(case)
 
-        for _ in range(ctx.n(70, 600)):
+        for _ in range(ctx.n(50, 600)):
             c = trace_case(rng)
             for lazy in (False, True):
                 pot, configs, ids, text, chunks = run_traced(c, lazy)
                 configs = expected_ids(configs, c["algorithm"])
                 planes = list_s(int(p) for p in pot.exit_planes)
-                tail = f"{list_s(ids)} {bool_s(c['ens'])} {planes} {pot.num_slices} {listlist_s(configs)} {bool_s(c['recip'])}"
+                two = bool(c.get("nb2"))
+                tail = (f"{c['nb']} {c['nb2']}" if two else list_s(ids)) + \
+                    f" {bool_s(c['ens'])} {planes} {pot.num_slices} {listlist_s(configs)} {bool_s(c['recip'])}"
                 if lazy:
-                    add("Waves.multislice(lazy, traced)", f"lazy {list_s(c['chunks'])} {tail}", text, c)
+                    add("Waves.multislice(lazy, traced)", (f"lazy2 {list_s(c['chunks'])} {list_s(c['chunks2'])} " if two else
+                                                           f"lazy {list_s(c['chunks'])} ") + tail, text, c)
                     # block structure of the real lazy result: one configuration per block, exit planes unchunked,
                     # batch chunks as given
                     nens, npl = (1 if c["ens"] else 0), len(pot.exit_planes)
-                    exp = ([[1] * c["ncfg"]] if c["ens"] else []) + ([[npl]] if npl > 1 else []) + [c["chunks"]]
+                    exp = ([[1] * c["ncfg"]] if c["ens"] else []) + ([[npl]] if npl > 1 else []) + [c["chunks"]] + \
+                        ([c["chunks2"]] if two else [])
                     ctx.agree("dask chunks of the lazy result = (one configuration per block, planes whole, batch chunks)",
                               c, exp, chunks[: len(exp)] if chunks else chunks)
                     add("MultisliceTransform._default_ensemble_chunks", f"defchunks {nens} {npl}",
                         "ok " + list_s(self._default_chunks(pot)), c)
                 else:
-                    add("Waves.multislice(eager, traced)", f"eager {tail}", text, c)
+                    add("Waves.multislice(eager, traced)", ("eager2 " if two else "eager ") + tail, text, c)
                 ctx.traces += 1
-            ctx.count(f"trace:{c['pot']}:ncfg={c['ncfg']}:nb={c['nb']}:blocks={len(c['chunks'])}:recip={c['recip']}:{c['algorithm']}")
+            ctx.count(f"trace:{c['pot']}:ncfg={c['ncfg']}:nb={c['nb']}x{c['nb2']}:blocks={len(c['chunks'])}x{len(c['chunks2'])}:recip={c['recip']}:{c['algorithm']}")
         for a in range(0, 3):
             for b in range(0, 5):
                 for d in range(0, 4):
@@ -334,8 +356,8 @@ class C01(Property):
                 return
 
     def conformance(self, ctx: Ctx):
-        for i in range(ctx.n(60, 500)):
-            c = gen_pipeline(ctx, focus=(i % 4 == 3))
+        for i in range(ctx.n(36, 500)):
+            c = gen_pipeline(ctx, focus=(i % 4 == 3), force_algorithm=(i % 4 == 1))
             self.oracle(ctx, c)
             ctx.count(f"numeric:{c['kind']}:{c['pot']}:{c['builder']}:scan={c['scan']}:batch={c['max_batch']}:{c['scheduler']}:post={c['post']}:entry={c['entry']}:{c['algorithm']}")
             ctx.case(c, nontrivial=True)
